@@ -139,6 +139,14 @@ class OneCursor:
                         pass
                 if not (c == c) or (i > 0 and c == d[0]):
                     out.append(('description-eq', f'description[{i}] equality is wrong'))
+                # equality is equality of the seven items: an item built for the same (name, type) is equal, one that
+                # differs in the name only or in the type only is not
+                other = str if dtype is not str else int
+                twin, oname, otype = type(c)(name, dtype), type(c)(name + '_', dtype), type(c)(name, other)
+                for label, x, want_eq in (('same name and type', twin, True), ('other name', oname, False), ('other type', otype, False)):
+                    self.nobs += 1
+                    if (c == x) is not want_eq or (x == c) is not want_eq or (c != x) is want_eq or (tuple(c) == tuple(x)) is not want_eq:
+                        out.append(('description-eq', f'description[{i}] == item with {label} gives {c == x!r} / {x == c!r} (!=: {c != x!r}), expected {want_eq!r}'))
             # the description itself is a sequence
             if list(d[0:1]) != [d[0]] or d[-1] != d[len(d) - 1] or [c for c in d] != [d[i] for i in range(len(d))]:
                 out.append(('description-seq', 'description does not behave as a sequence'))
